@@ -509,14 +509,16 @@ class SymRule(FactRule):
 
 # --------------------------------------------------------------- guards
 
+_ROOTS_CACHE = {}
+
+
 def path_roots(p):
     """Prefixes of an access path that, when assigned, invalidate a fact about p."""
-    out = set([p])
-    for sep in ('->', '.'):
-        parts = p.split(sep)
-    cur = ''
-    i = 0
+    r = _ROOTS_CACHE.get(p)
+    if r is not None:
+        return r
     import re
+    out = set([p])
     toks = re.split(r'(->|\.)', p)
     acc = ''
     for t in toks:
@@ -524,7 +526,9 @@ def path_roots(p):
         if t not in ('->', '.'):
             out.add(acc.lstrip('*&'))
             out.add(acc)
-    return out
+    r = frozenset(out)
+    _ROOTS_CACHE[p] = r
+    return r
 
 
 class GuardRule(FactRule):
@@ -656,6 +660,8 @@ class GuardRule(FactRule):
         return ts
 
     def kill(self, ts, path):
+        if not any(isinstance(it, tuple) and it and it[0] in ('g', 'c') for it in ts):
+            return ts
         out = []
         for it in ts:
             if isinstance(it, tuple) and it and it[0] == 'g':
@@ -781,8 +787,19 @@ class GuardRule(FactRule):
         return frozenset(out)
 
 
+_OPATHS_CACHE = {}
+
+
 def operand_paths(s):
     """Access paths mentioned in an operand string (a path, '#const', or 'f(a,b)')."""
+    r = _OPATHS_CACHE.get(s)
+    if r is None:
+        r = _operand_paths(s)
+        _OPATHS_CACHE[s] = r
+    return r
+
+
+def _operand_paths(s):
     if s.startswith('#'):
         return []
     if '(' in s and s.endswith(')'):
